@@ -36,6 +36,13 @@ PINS = {
                      "lenN b <= 4294967295 -> de_value true b = Ok (v, []) -> exists b', "
                      "convert_api from (1, min) b = Ok b' /\\ de_value true b' = Ok (v, []) /\\ v1_only b' = true /\\ "
                      "convert_api from (1, min) b' = Ok b'",
+    "C13_walker_error_kinds": "forall b e, conv_value b = Err e -> e = Eoi \\/ e = Invalid \\/ e = TooDeep \\/ e = Overflow",
+    "C13_invalid_version_only": "forall from to b, convert_api from to b = Err InvalidVersion -> "
+                                "epoch_of (match from with Some v => v | None => (1, 20) end) = Err InvalidVersion \\/ "
+                                "epoch_of to = Err InvalidVersion",
+    "C13_invalid_version_iff": "forall from to b, convert_api from to b = Err InvalidVersion <->",
+    "C13_trailing_data_only": "convert_api from to b = Err TrailingData -> exists out x rest, conv_value b = Ok (out, x :: rest)",
+    "C13_api_error_kinds": "e = InvalidVersion \\/ e = TrailingData \\/ e = Eoi \\/ e = Invalid \\/ e = TooDeep \\/ e = Overflow",
 }
 # inputs, shards: ~3.25 conversions per input -> ~1e5 / ~3e6 conversions
 SIZES = {"quick": (32000, 8), "thorough": (960000, 16)}
